@@ -31,7 +31,68 @@ func guardStrings(b *binder, blk *ssa.BasicBlock) []string {
 			sign = "-"
 		}
 		out = append(out, sign+b.bind(cond))
+		// a helper's ok result known true: what holds inside the helper wherever it returns true holds here as well
+		if ex, isEx := cond.(*ssa.Extract); isEx && val {
+			if call, isCall := ex.Tuple.(*ssa.Call); isCall && !call.Call.IsInvoke() {
+				out = append(out, liftedGuards(b, call, ex.Index)...)
+			}
+		}
+		if call, isCall := cond.(*ssa.Call); isCall && val && !call.Call.IsInvoke() {
+			out = append(out, liftedGuards(b, call, 0)...)
+		}
 	}
+	return out
+}
+
+// liftedGuards: the guards common to every `return ..., true` (result idx) of the statically called module helper, in
+// terms of the call's arguments.
+func liftedGuards(b *binder, call *ssa.Call, idx int) []string {
+	cal := call.Call.StaticCallee()
+	if cal == nil || !b.c.P.isModuleFn(cal) || len(cal.Blocks) == 0 || b.inlineD >= 2 || len(cal.Params) != len(call.Call.Args) {
+		return nil
+	}
+	var args []string
+	for _, a := range call.Call.Args {
+		args = append(args, b.bind(a))
+	}
+	sub := b.withArgs(cal, args)
+	sub.showBodies = b.showBodies
+	var common map[string]bool
+	n := 0
+	for _, blk := range cal.Blocks {
+		ret, ok := blk.Instrs[len(blk.Instrs)-1].(*ssa.Return)
+		if !ok || idx >= len(ret.Results) {
+			continue
+		}
+		if bv, isC := constBool(ret.Results[idx]); !isC || !bv {
+			if _, isConst := ret.Results[idx].(*ssa.Const); isConst {
+				continue // returns false here
+			}
+			return nil // computed result: nothing to lift
+		}
+		n++
+		gs := map[string]bool{}
+		for _, g := range guardStrings(sub, blk) {
+			gs[g] = true
+		}
+		if common == nil {
+			common = gs
+		} else {
+			for g := range common {
+				if !gs[g] {
+					delete(common, g)
+				}
+			}
+		}
+	}
+	if n == 0 {
+		return nil
+	}
+	var out []string
+	for g := range common {
+		out = append(out, g)
+	}
+	sort.Strings(out)
 	return out
 }
 
@@ -138,6 +199,7 @@ func localMapLiteralKeys(fn *ssa.Function) map[ssa.Value][]string {
 func runNyctTrips(c *Ctx) {
 	p := c.P
 	b := newBinder(c)
+	b.showBodies = true
 	upd := c.anchor("nycttrips:(extension).updateTripOrVehicle")
 	fix := c.anchor("nycttrips:fixMTrainPlatformsInBushwick")
 	stale := c.anchor("nycttrips:isStaleUnassignedTrip")
@@ -240,27 +302,47 @@ func runNyctTrips(c *Ctx) {
 	// direction: NORTH -> 0, otherwise 1
 	{
 		fname := shortName(upd)
+		// every way a direction id is stored: the value with the conditions under which it is that value (the guards of
+		// the field store plus those of the assignment to the variable whose address is stored); an unguarded
+		// initialisation that a guarded assignment overrides counts as the "otherwise" case
 		var dirs []string
-		for _, fs := range collectFieldStores([]*ssa.Function{upd}, "proto.TripDescriptor") {
+		northConst := strings.TrimPrefix(c.constOf("proto", "NyctTripDescriptor_NORTH"), "const:")
+		isNorth := func(gs []string, sign string) bool {
+			return hasGuard(gs, sign, "proto:NyctTripDescriptor.Direction", "== const:"+northConst)
+		}
+		for _, fs := range collectFieldStores(c.regionOf(upd), "proto.TripDescriptor") {
 			if fs.field != "DirectionId" {
 				continue
 			}
-			gs := guardStrings(b, fs.store.Block())
-			val := b.bind(fs.store.Val)
-			north := hasGuard(gs, "+", "proto:NyctTripDescriptor.Direction", "== const:1") // NORTH = 1
-			notNorth := hasGuard(gs, "-", "proto:NyctTripDescriptor.Direction", "== const:1")
-			switch {
-			case north:
-				dirs = append(dirs, "NORTH->"+val)
-			case notNorth:
-				dirs = append(dirs, "else->"+val)
-			default:
-				dirs = append(dirs, "?->"+val)
+			base := guardStrings(b, fs.store.Block())
+			alts := storeAlternatives(b, fs.store.Val)
+			if len(alts) == 0 {
+				alts = []storeAlt{{nil, b.bind(fs.store.Val)}}
+			}
+			overridden := false
+			for _, alt := range alts {
+				if isNorth(alt.guards, "+") || isNorth(alt.guards, "-") {
+					overridden = true
+				}
+			}
+			for _, alt := range alts {
+				gs := append(append([]string{}, base...), alt.guards...)
+				val := strings.TrimSuffix(strings.TrimPrefix(alt.val, "&("), ")")
+				switch {
+				case isNorth(gs, "+"):
+					dirs = append(dirs, "NORTH->"+val)
+				case isNorth(gs, "-"):
+					dirs = append(dirs, "else->"+val)
+				case overridden:
+					dirs = append(dirs, "else->"+val) // the initial value, kept unless the NORTH branch assigns
+				default:
+					dirs = append(dirs, "?->"+val)
+				}
 			}
 		}
 		sort.Strings(dirs)
-		northConst := strings.TrimPrefix(c.constOf("proto", "NyctTripDescriptor_NORTH"), "const:")
-		ok := strings.Join(dirs, ",") == "NORTH->&(const:0),else->&(const:1)" && northConst == "1"
+		dirs = dedup(dirs)
+		ok := strings.Join(dirs, ",") == "NORTH->const:0,else->const:1" && northConst == "1"
 		c.Check(ok, "NYCT", fname, "direction NORTH -> 0, otherwise 1", p.pos(upd.Pos()), strings.Join(dirs, ", "), "direction_id is derived as "+strings.Join(dirs, ", ")+" (expected NORTH->0, else->1)")
 		// composed with the realtime direction table 0 -> False, 1 -> True (C02 UNITS)
 	}
@@ -279,7 +361,7 @@ func runNyctTrips(c *Ctx) {
 		}
 		c.Check(okRe, "NYCT", "nycttrips.TripIDRegex", "origin time = first six digits of the trip id", "-", "capture group 1 of TripIDRegex is [0-9]{6} at the start of the id", "TripIDRegex's first capture group is not exactly six leading digits")
 		n := 0
-		for _, fs := range collectFieldStores([]*ssa.Function{upd}, "proto.TripDescriptor") {
+		for _, fs := range collectFieldStores(c.regionOf(upd), "proto.TripDescriptor") {
 			if fs.field != "StartTime" {
 				continue
 			}
@@ -634,6 +716,7 @@ func checkSwapTable(st *ssa.Store) bool {
 func runNyctAlerts(c *Ctx) {
 	p := c.P
 	b := newBinder(c)
+	b.showBodies = true
 	ua := c.anchor("nyctalerts:(extension).UpdateAlert")
 	ue := c.anchor("nyctalerts:(extension).updateElevatorAlert")
 	gp := c.anchor("nyctalerts:getPriorityFromInformedEntity")
@@ -667,6 +750,24 @@ func runNyctAlerts(c *Ctx) {
 			continue // the elevator path
 		}
 		nSkip++
+		// the decision is taken per informed entity: the return sits in a loop over all of the alert's informed entities
+		inEntityLoop := false
+		for _, l := range naturalLoops(ua) {
+			// the return leaves the loop, so it is not one of the loop's blocks: it must hang off the loop body
+			if !(l.Blocks[blk] || (len(l.Header.Succs) > 0 && l.Blocks[l.Header.Succs[0]] && l.Header.Succs[0].Dominates(blk))) {
+				continue
+			}
+			for lb := range l.Blocks {
+				for _, in := range lb.Instrs {
+					if ia, isIA := in.(*ssa.IndexAddr); isIA && rangeIndexSeq(ia.Index) != nil && strings.Contains(b.bind(ia.X), "proto:Alert.InformedEntity") {
+						inEntityLoop = true
+					}
+				}
+			}
+		}
+		if !inEntityLoop {
+			c.Violated("ALRT", fname, "every informed entity's priority is considered", p.pos(blk.Instrs[0].Pos()), "the skip decision is not taken inside a loop over all informed entities of the alert: an entity with a timetabled no-service priority can be overlooked (e.g. when only the first entity's priority is read)")
+		}
 		okOpt := hasGuard(gs, "+", "SkipTimetabledNoServiceAlerts")
 		okSet := false
 		var got []string
@@ -767,21 +868,23 @@ func runNyctAlerts(c *Ctx) {
 			if !ok || st.Addr != ssa.Value(ue.Params[1]) {
 				continue
 			}
-			phi := firstPhi(st.Val)
 			got := map[string]string{}
-			if phi != nil {
-				for i, ed := range phi.Edges {
-					pred := phi.Block().Preds[i]
-					gs := guardStrings(b, pred)
-					val := b.bind(ed)
-					switch {
-					case hasGuard(gs, "+", "ElevatorAlertsDeduplicationPolicy", `== const:"DEDUPLICATE_IN_STATION"`):
-						got["station"] = val
-					case hasGuard(gs, "+", "ElevatorAlertsDeduplicationPolicy", `== const:"DEDUPLICATE_IN_COMPLEX"`):
-						got["complex"] = val
-					default:
-						got["default"] = val
-					}
+			var src ssa.Value = st.Val
+			if phi := firstPhi(st.Val); phi != nil {
+				src = phi
+			} else if cl := firstCall(st.Val); cl != nil {
+				src = cl
+			}
+			nb := newBinder(c) // the expected forms are written without helper bodies
+			for _, alt := range storeAlternatives(nb, src) {
+				gs, val := alt.guards, alt.val
+				switch {
+				case hasGuard(gs, "+", "ElevatorAlertsDeduplicationPolicy", `== const:"DEDUPLICATE_IN_STATION"`):
+					got["station"] = val
+				case hasGuard(gs, "+", "ElevatorAlertsDeduplicationPolicy", `== const:"DEDUPLICATE_IN_COMPLEX"`):
+					got["complex"] = val
+				default:
+					got["default"] = val
 				}
 			}
 			m := "regexp.Regexp.FindStringSubmatch(global:<*regexp.Regexp>,deref(param:<*string>))"
@@ -808,49 +911,88 @@ func runNyctAlerts(c *Ctx) {
 		m := "regexp.Regexp.FindStringSubmatch(global:<*regexp.Regexp>,deref(param:<*string>))"
 		c.Check(got["station"] == m+"[const:1]" && got["platform"] == "("+m+"[const:1] + "+m+"[const:2])", "ALRT", efn, "informed stop = station id when configured, else platform id", p.ipos(fs.store), "station = group 1; platform = group 1 + group 2", fmt.Sprintf("informed ids: %v", got))
 	}
-	// Y4: duplicate test over all informed entities of the group, append only when absent
+	// Y4: duplicate test over all informed entities of the group, append only when absent. The test is a flag set in a
+	// scan of the group's informed entities, or a predicate helper that performs that scan
 	{
-		var flag *ssa.Phi
-		appendGuarded := false
-		for _, fs := range collectFieldStores([]*ssa.Function{ue}, "proto.Alert") {
-			if fs.field != "InformedEntity" || !isAppendOf(fs.store.Val, fs.store.Addr) {
-				continue
-			}
-			for _, ce := range dominatingConds(fs.store.Block()) {
-				if ph, ok := ce.Cond.(*ssa.Phi); ok && !ce.Val {
-					flag = ph
-					appendGuarded = true
-				}
-			}
-		}
-		okScan := false
-		if flag != nil {
-			// the flag is true only via an edge from inside a range loop over deduplicatedAlert.InformedEntity where StopId == informed id
-			for _, l := range naturalLoops(ue) {
-				full := false
-				var seq ssa.Value
+		appendGuarded, okScan := false, false
+		// fullScanTrue: inside fn, `true` (as a phi edge or a return) arises only within a loop that visits every element
+		// of X.InformedEntity and under the guard StopId == <stop>
+		scanLoops := func(fn *ssa.Function) []*Loop {
+			var out []*Loop
+			for _, l := range naturalLoops(fn) {
 				for blk := range l.Blocks {
 					for _, in := range blk.Instrs {
 						if ia, ok := in.(*ssa.IndexAddr); ok {
 							if r, _ := isRangeIndexOver(ia.Index, ia.X); r && strings.HasSuffix(canon(ia.X), ".InformedEntity)") {
-								full = true
-								seq = ia.X
+								out = append(out, l)
 							}
 						}
 					}
 				}
-				_ = seq
-				if !full {
+			}
+			return out
+		}
+		for _, fs := range collectFieldStores(c.regionOf(ue), "proto.Alert") {
+			if fs.field != "InformedEntity" || !isAppendOf(fs.store.Val, fs.store.Addr) {
+				continue
+			}
+			for _, ce := range dominatingConds(fs.store.Block()) {
+				if ce.Val {
 					continue
 				}
-				for i, ed := range flag.Edges {
-					if k, isC := ed.(*ssa.Const); isC {
-						if bv, _ := constBool(k); bv && l.Header.Dominates(flag.Block().Preds[i]) {
-							gs := guardStrings(b, flag.Block().Preds[i])
-							if hasGuard(gs, "+", "proto:EntitySelector.StopId", "==") {
-								okScan = true
+				switch x := ce.Cond.(type) {
+				case *ssa.Phi:
+					appendGuarded = true
+					for _, l := range scanLoops(fs.fn) {
+						for i, ed := range x.Edges {
+							if bv, isC := constBool(ed); isC && bv && l.Header.Dominates(x.Block().Preds[i]) {
+								if hasGuard(guardStrings(b, x.Block().Preds[i]), "+", "proto:EntitySelector.StopId", "==") {
+									okScan = true
+								}
 							}
 						}
+					}
+				case *ssa.Call:
+					h := x.Call.StaticCallee()
+					if h == nil || x.Call.IsInvoke() || !p.isModuleFn(h) || len(h.Blocks) == 0 {
+						continue
+					}
+					appendGuarded = true
+					loops := scanLoops(h)
+					okH, nTrue := len(loops) > 0, 0
+					for _, blk := range h.Blocks {
+						ret, isRet := blk.Instrs[len(blk.Instrs)-1].(*ssa.Return)
+						if !isRet || len(ret.Results) != 1 {
+							continue
+						}
+						bv, isC := constBool(ret.Results[0])
+						if !isC {
+							okH = false // a computed answer: not the scan the rule knows
+							continue
+						}
+						if !bv {
+							continue
+						}
+						nTrue++
+						in := false
+						for _, l := range loops {
+							if l.Blocks[blk] || l.Header.Dominates(blk) {
+								in = true
+							}
+						}
+						if !in || !hasGuard(guardStrings(b, blk), "+", "proto:EntitySelector.StopId", "==") {
+							okH = false
+						}
+					}
+					// the scanned alert is the one appended to
+					scanned := false
+					for _, a := range x.Call.Args {
+						if strings.HasPrefix(canon(fs.store.Addr), canon(a)+".") {
+							scanned = true
+						}
+					}
+					if okH && nTrue > 0 && scanned {
+						okScan = true
 					}
 				}
 			}
@@ -910,6 +1052,34 @@ func storeAlternatives(b *binder, v ssa.Value) []storeAlt {
 				out = append(out, storeAlt{guardStrings(b, st.Block()), b.bind(st.Val)})
 			}
 		}
+	case *ssa.Call:
+		// a module helper that picks the value: each of its returns with the conditions under which it is taken, in
+		// terms of the call's arguments
+		cal := x.Call.StaticCallee()
+		if cal == nil || x.Call.IsInvoke() || !b.c.P.isModuleFn(cal) || len(cal.Blocks) == 0 || len(cal.Params) != len(x.Call.Args) || b.inlineD >= 2 {
+			return nil
+		}
+		var args []string
+		for _, a := range x.Call.Args {
+			args = append(args, b.bind(a))
+		}
+		sub := b.withArgs(cal, args)
+		sub.showBodies = b.showBodies
+		for _, blk := range cal.Blocks {
+			ret, ok := blk.Instrs[len(blk.Instrs)-1].(*ssa.Return)
+			if !ok || len(ret.Results) != 1 {
+				continue
+			}
+			gs := guardStrings(sub, blk)
+			inner := storeAlternatives(sub, ret.Results[0])
+			if len(inner) == 0 {
+				out = append(out, storeAlt{gs, sub.bind(ret.Results[0])})
+				continue
+			}
+			for _, in := range inner {
+				out = append(out, storeAlt{append(append([]string{}, gs...), in.guards...), in.val})
+			}
+		}
 	case *ssa.Phi:
 		for i, ed := range x.Edges {
 			pred := x.Block().Preds[i]
@@ -925,6 +1095,32 @@ func storeAlternatives(b *binder, v ssa.Value) []storeAlt {
 		}
 	}
 	return out
+}
+
+// firstCall: the module helper call whose result v is (through local cells and interface conversion).
+func firstCall(v ssa.Value) *ssa.Call {
+	for i := 0; i < 8 && v != nil; i++ {
+		switch x := v.(type) {
+		case *ssa.Call:
+			if x.Call.StaticCallee() != nil && !x.Call.IsInvoke() {
+				return x
+			}
+			return nil
+		case *ssa.Alloc:
+			var sv ssa.Value
+			for _, s := range cellStores(x) {
+				sv = s
+			}
+			v = sv
+		case *ssa.UnOp:
+			v = x.X
+		case *ssa.MakeInterface:
+			v = x.X
+		default:
+			return nil
+		}
+	}
+	return nil
 }
 
 func firstPhi(v ssa.Value) *ssa.Phi {
